@@ -11,6 +11,8 @@ import (
 	"bytes"
 	"encoding/hex"
 	"fmt"
+	"github.com/refraction-networking/conjure/pkg/zzverif/vsync"
+	"github.com/refraction-networking/conjure/pkg/zzverif/vtime"
 	"io"
 	"net"
 	"os"
@@ -80,6 +82,13 @@ func c03Registry(kind string) *cj.RegistrationManager {
 	addReg(rm, regSpec{secret: 13, tt: pb.TransportType_Obfs4, params: gp, valid: true}, c03Other)
 	switch kind {
 	case "none", "blocklisted-phantom":
+	case "crowded:1500-held-connections", "crowded:1500-held-connections+min":
+		// a prober that first opens many connections and leaves them idle (all of them inside their classification
+		// window when the probe under test arrives): what the probe sees must not depend on the crowd
+		c03Crowd[rm] = 1500
+		if strings.HasSuffix(kind, "+min") {
+			addReg(rm, regSpec{secret: 1, tt: pb.TransportType_Min, params: gp, valid: true}, c03Phantom)
+		}
 	case "geoip-v4only:client6":
 		// GeoIP database files that hold IPv4 networks only (a valid MaxMind DB with ip_version 4): every lookup of an
 		// IPv6 client address fails. The prober connects from an IPv6 address.
@@ -118,6 +127,9 @@ type c03LateReg struct {
 
 var c03Late = map[*cj.RegistrationManager]*c03LateReg{}
 
+// c03Crowd: number of idle connections held open (by other threads) while the probe is handled
+var c03Crowd = map[*cj.RegistrationManager]int{}
+
 // c03Client: the prober's source address where a registry kind asks for a particular one (default 203.0.113.77)
 var c03Client = map[*cj.RegistrationManager]net.IP{}
 
@@ -134,7 +146,13 @@ func runProbe(rm *cj.RegistrationManager, phantom net.IP, segs [][]byte, gaps []
 		cip = ip
 	}
 	conn := &vconn.Conn{Name: "client", Remote: &net.TCPAddr{IP: cip, Port: 54321}, Local: &net.TCPAddr{IP: phantom, Port: 443}}
-	at := time.Duration(0)
+	// with a crowd of held connections the probe enters one (virtual) millisecond after the start of the execution, when
+	// every held connection has reached its first read; all times below are taken relative to that entry
+	entry := time.Duration(0)
+	if c03Crowd[rm] > 0 {
+		entry = time.Millisecond
+	}
+	at := entry
 	for i, s := range segs {
 		if i > 0 {
 			at += gaps[(i-1)%len(gaps)]
@@ -168,15 +186,32 @@ func runProbe(rm *cj.RegistrationManager, phantom net.IP, segs [][]byte, gaps []
 				res.dials++
 				return nil, &net.OpError{Op: "dial", Net: network, Err: syscall.ECONNREFUSED}
 			}
+			var crowd vsync.WaitGroup
+			if n := c03Crowd[rm]; n > 0 {
+				for i := 0; i < n; i++ {
+					idle := &vconn.Conn{Name: "held", Remote: &net.TCPAddr{IP: net.IPv4(198, 51, 100, byte(1+i%250)), Port: 20000 + i}, Local: &net.TCPAddr{IP: phantom, Port: 443}}
+					crowd.Add(1)
+					vsched.GoNamed("held", func() {
+						defer crowd.Done()
+						cm.handleNewTCPConn(rm, idle, phantom)
+						idle.Close()
+					})
+				}
+				vtime.Sleep(entry)
+			}
 			cm.handleNewTCPConn(rm, conn, phantom)
+			res.returnedAt = time.Duration(vsched.ClockNanos()) - entry
+			crowd.Wait()
 			vnet.DialHook = nil
-			res.returnedAt = time.Duration(vsched.ClockNanos())
 		}}
 	})
 	res.verdict, res.detail = x.Verdict, x.Detail
 	res.written = len(conn.Written)
 	res.closes = conn.CloseCalls
 	res.closedAt = conn.ClosedAt
+	if res.closedAt > 0 {
+		res.closedAt -= entry
+	}
 	for i, c := range conn.Calls {
 		if i >= len(conn.Calls)-14 {
 			res.calls += fmt.Sprintf("[%s n=%d err=%q at=%v] ", c.Op, c.N, c.Err, c.At)
@@ -185,7 +220,7 @@ func runProbe(rm *cj.RegistrationManager, phantom net.IP, segs [][]byte, gaps []
 	res.read = conn.ReadBytes
 	if len(conn.DeadlineSets) > 0 && !conn.DeadlineSets[0].IsZero() {
 		res.hasDL = true
-		res.deadline = conn.DeadlineSets[0].Sub(x.Base)
+		res.deadline = conn.DeadlineSets[0].Sub(x.Base) - entry
 	}
 	return res
 }
@@ -484,9 +519,10 @@ func verifC03(a *vh.Args) {
 	e := venum.New(fmt.Sprintf("probes:shard%d/%d", a.ShardI, a.ShardN), a)
 	c03Thorough = a.Thorough()
 	streams := c03Streams(a)
-	regKinds := []string{"none", "unvalidated", "validated-after-refusal", "min", "prefix", "obfs4", "mixed3", "blocklisted-phantom", "blocklisted-phantom+min", "geoip-v4only:client6"}
+	regKinds := []string{"none", "unvalidated", "validated-after-refusal", "min", "prefix", "obfs4", "mixed3", "blocklisted-phantom", "blocklisted-phantom+min", "geoip-v4only:client6", "crowded:1500-held-connections", "crowded:1500-held-connections+min"}
 	sleepPath := map[string]bool{}
 	n := 0
+	crowdN := 0
 	for _, rk := range regKinds {
 		rm := c03Registry(rk)
 		for _, st := range streams {
@@ -535,6 +571,13 @@ func verifC03(a *vh.Args) {
 			}
 			for _, s := range sg {
 				for _, draw := range []int64{0, 4999} {
+					if strings.HasPrefix(rk, "crowded") {
+						// (1500 threads per execution: a thinned menu of streams and segmentations)
+						crowdN++
+						if crowdN%179 != 1 {
+							continue
+						}
+					}
 					n++
 					if n%a.ShardN != a.ShardI {
 						continue
